@@ -754,11 +754,14 @@ class Sim(object):
                     k.out("o conflict")
                 else:
                     self._watch(f)
-            elif kind == "req":
-                raw = json.dumps(op[1]).encode()
-                self.arb.ctrl.handle_message([("c%d" % (op[2] if len(op) > 2 else 0)).encode(), raw])
-            elif kind == "raw":
-                self.arb.ctrl.handle_message([("c%d" % (op[2] if len(op) > 2 else 0)).encode(), bytes(op[1])])
+            elif kind in ("req", "raw"):
+                raw = json.dumps(op[1]).encode() if kind == "req" else bytes(op[1])
+                try:
+                    self.arb.ctrl.handle_message([("c%d" % (op[2] if len(op) > 2 else 0)).encode(), raw])
+                except Blocked:
+                    raise
+                except Exception as e:              # escaped from the recv handler: the loop logs it, nobody is answered
+                    k.out("o raised %s" % type(e).__name__)
             elif kind == "xreq":
                 # a request for a registered command whose execute() raises an exception of the named class
                 # (classes outside Exception included): dispatch has to turn it into one error reply
